@@ -8,7 +8,9 @@ P = PR + ":RepositoryPackCollection."
 FUNCTIONS = [P + "_commit_write_group", P + "allocate", P + "autopack", P + "_do_autopack", P + "plan_autopack_combinations",
              P + "_execute_pack_operations", P + "_save_pack_names", P + "_diff_pack_names",
              P + "_syncronize_pack_names_from_disk_nodes", P + "_clear_obsolete_packs", P + "_obsolete_packs",
-             P + "add_pack_to_memory", P + "_remove_pack_from_memory", P + "all_packs", P + "get_pack_by_name"]
+             P + "add_pack_to_memory", P + "_remove_pack_from_memory", P + "all_packs", P + "get_pack_by_name",
+             P + "pack", P + "_try_pack_operations", P + "_already_packed", PR + ":Packer.pack",
+             "breezy.bzr.groupcompress_repo:GCCHKPacker._create_pack_from_packs"]
 STUBS = ["packs are records (name, symbolic revision count); NewPack.finish(), the packer's copy-and-finish, the write of "
          "pack-names and the moves to obsolete_packs/ are recorded as EVENTS in the order the real code performs them; the "
          "aggregate indices only count revisions; version-file sanity checks of _commit_write_group answer 'nothing missing'"]
@@ -16,7 +18,9 @@ ASSUMPTIONS = ["a pack file and its indices become durable atomically when finis
                "to upload/, rename into packs/ - is outside)", "the pack-names file is replaced atomically by put_file",
                "no other process writes the repository during the operation (that is C05)",
                "a crash can happen between any two recorded effects; reopening reads pack-names and the packs/ directory"]
-OUTSIDE = ["crash points inside NewPack.finish / Packer.pack (file and index writes, renames)", "fetch and explicit pack()",
+OUTSIDE = ["crash points inside NewPack.finish (file and index writes, renames) - except that finish() must never run under the "
+           "name of a pack that pack-names lists at that moment", "the copying of content by the packers (compiled "
+           "groupcompress), fetch, the knit-format packers",
            "leftover files in upload/ and obsolete_packs/ (harmless by assumption)", "more packs than the bound"]
 
 
@@ -44,10 +48,102 @@ def ob_commit_crash(cx):
     cx.observe("events", [e[0] for e in events])
 
 
+GC = "breezy.bzr.groupcompress_repo"
+
+
+def ob_repack(cx):
+    """An explicit pack() of a 2a repository: RepositoryPackCollection.pack -> _execute_pack_operations -> the real
+    GCCHKPacker.pack / _create_pack_from_packs -> _save_pack_names.  The copying of content is a stand-in; SYMBOLIC are the
+    number and sizes of the live packs, whether the packer wants the result at all, and whether the repacked content hashes
+    to the NAME OF THE ONLY LIVE PACK (an already optimally packed repository).  Crash after every prefix of the effects."""
+    env = pc.build(cx, cx.p("npacks"), cx.p("maxcount"))
+    R, G = env.R, cx.mod(GC)
+    coll, events = env.coll, env.events
+    coll.chk_index = pc.Agg(coll)
+    coll.repo._format.pack_compresses = True
+    coll.ensure_loaded = lambda: None
+    R.mutter = lambda *a, **k: None
+    use_pack = bool(cx.choose("packer_wants_result", 0, 1))
+    same_name = cx.bool("content_hashes_to_live_name")
+
+    class PB:
+        def update(self, *a, **k):
+            pass
+
+        def finished(self):
+            pass
+
+    class UI:
+        class ui_factory:
+            nested_progress_bar = staticmethod(lambda: PB())
+    R.ui = G.ui = UI
+
+    class NewPack(pc.WritablePack):
+        def __init__(self, sources):
+            total, content = 0, set()
+            for p in sources:
+                total = total + p.count
+                content |= p.content
+            pc.WritablePack.__init__(self, None, total, content, events)
+            outer = self
+            self.final_name = sources[0].name if (len(sources) == 1 and cx.truth(same_name)) else "repacked"
+
+            class H:
+                @staticmethod
+                def hexdigest():
+                    return outer.final_name
+            self._hash = H
+
+        def set_write_cache_size(self, n):
+            pass
+
+        def _check_references(self):
+            pass
+
+        def finish_content(self):
+            self.name = self.final_name          # as NewPack does: the name is the hash of the content
+
+        def finish(self, suspend=False):
+            if self.name is None:
+                self.finish_content()
+            env.by_name.setdefault(self.name, self)
+            events.append(("finish", self.name))
+
+    class Packer(G.GCCHKPacker):
+        def open_pack(self):
+            return NewPack(self.packs)
+
+        def _use_pack(self, new_pack):
+            return use_pack
+    for nm in ("_copy_revision_texts", "_copy_inventory_texts", "_copy_chk_texts", "_copy_text_texts", "_copy_signature_texts"):
+        setattr(Packer, nm, lambda self: None)
+    coll.optimising_packer_class = Packer
+    n_before = len(env.packs)
+    coll.pack()
+    pc.check_every_crash_point(cx, env, env.old_content)
+    cx.require(pc.listed_content(env) == env.old_content, "after pack() the repository does not show the same revisions")
+    cx.require(sorted(coll._names) == sorted(nm for nm, _v in env.disk["names"]), "in-memory pack names differ from the written list")
+    finished = [e for e in events if e[0] == "finish"]
+    if finished:
+        cx.require([nm for nm, _v in env.disk["names"]] == [finished[0][1]], "after a repack the list does not name exactly the new pack")
+        cx.cover("repacked")
+    else:
+        cx.require(sorted(nm for nm, _v in env.disk["names"]) == sorted(p.name for p in env.packs), "a pack() that produced no pack changed the list")
+        cx.cover("nothing_to_do")
+    if n_before == 1 and cx.truth(same_name) and use_pack:
+        cx.require(not finished, "an already optimally packed repository was rewritten in place")
+        cx.cover("already_optimal")
+    cx.observe("events", [e[0] for e in events])
+
+
 def obligations(tier):
     q = tier == "quick"
     p = dict(npacks=3 if q else 4, maxcount=12 if q else 30)
-    return [Ob("commit_crash_points", ob_commit_crash, [PR], p, 900 if q else 7200, 2 if q else 1,
+    return [Ob("repack_crash_points", ob_repack, [PR, GC], p, 900 if q else 7200, 1,
+               ["repacked", "nothing_to_do", "already_optimal"],
+               bounds="explicit pack() of <= %(npacks)d live packs (2a packer), the new pack's name equal to the only live pack's "
+                      "name or not (symbolic), packer wants the result or not; a crash after each prefix of the effects" % p),
+            Ob("commit_crash_points", ob_commit_crash, [PR], p, 900 if q else 7200, 2 if q else 1,
                ["committed", "empty_group", "autopacked"],
                bounds="<= %(npacks)d existing packs with symbolic revision counts 1..%(maxcount)d, a write group with a symbolic "
                       "number of revisions (or empty); a crash after each prefix of the recorded durable effects (pack finished, "
